@@ -10,7 +10,7 @@ from .engine import (sel, Arr, BoundMethod, CompRef, DtypeRef, FnRef, Lam, ModRe
                      is_concrete, is_int, zbool, zint, DTYPE_ALIASES, RETURN, NORMAL, RAISE, State)
 from .loops import RangeV
 
-BUILTINS = {"range", "len", "abs", "min", "max", "int", "float", "round", "pow", "isinstance", "bool", "str", "hash", "sum"}
+BUILTINS = {"slice", "range", "len", "abs", "min", "max", "int", "float", "round", "pow", "isinstance", "bool", "str", "hash", "sum"}
 MODULES = {"numpy": "numpy", "numba": "numba", "scipy.special": "scipy.special", "math": "math", "dask.array": "dask.array",
            "xarray": "xarray", "pandas": "pandas"}
 
@@ -23,6 +23,19 @@ def resolve_name(ex, name):
             origin = imports[name]
             if origin in MODULES:
                 return ModRef(MODULES[origin])
+            if origin.startswith("hdc."):
+                # absolute import of a repo name (used by the ghost drivers in the sidecars)
+                mod, _, attr = origin.rpartition(".")
+                cand = mod.replace(".", "/") + ".py"
+                if os.path.exists(os.path.join(REPO, cand)):
+                    import ast as _ast
+                    with open(os.path.join(REPO, cand)) as fh:
+                        tree = _ast.parse(fh.read())
+                    for n in tree.body:
+                        if isinstance(n, _ast.ClassDef) and n.name == attr:
+                            return FnRef(f"repoclass:{cand}::{attr}")
+                        if isinstance(n, _ast.FunctionDef) and n.name == attr:
+                            return FnRef(f"repo:{cand}::{attr}")
             if origin.startswith("."):
                 # relative import of a repo function
                 level = len(origin) - len(origin.lstrip("."))
@@ -33,13 +46,20 @@ def resolve_name(ex, name):
                     base = os.path.dirname(base)
                 cand = os.path.join(base, *(mod.split(".") if mod else [])) + ".py"
                 if os.path.exists(os.path.join(REPO, cand)):
+                    const = _module_constant(cand, attr)
+                    if const is not None:
+                        return const
                     return FnRef(f"repo:{cand}::{attr}")
                 cand2 = os.path.join(base, *(rest.split("."))) + ".py"
                 if os.path.exists(os.path.join(REPO, cand2)):
                     return ModRef("repo:" + cand2)
                 return FnRef(f"repo:?{origin}")
             return FnRef(origin)
-        # same-module definitions
+        # same-module constants and definitions
+        for n in fs.module_ast.body:
+            if isinstance(n, ast.Assign) and len(n.targets) == 1 and isinstance(n.targets[0], ast.Name) and n.targets[0].id == name \
+                    and isinstance(n.value, ast.Constant) and isinstance(n.value.value, (int, float)):
+                return n.value.value
         for n in fs.module_ast.body:
             if isinstance(n, ast.FunctionDef) and n.name == name:
                 return FnRef(f"repo:{fs.path}::{name}")
@@ -51,6 +71,20 @@ def resolve_name(ex, name):
         return FnRef("numba.core.types." + name)
     if name == "True":
         return True
+    return None
+
+
+def _module_constant(relpath, name):
+    """NAME = <numeric literal> at module level of a repo file"""
+    try:
+        with open(os.path.join(REPO, relpath)) as fh:
+            tree = ast.parse(fh.read())
+    except (OSError, SyntaxError):
+        return None
+    for n in tree.body:
+        if isinstance(n, ast.Assign) and len(n.targets) == 1 and isinstance(n.targets[0], ast.Name) and n.targets[0].id == name \
+                and isinstance(n.value, ast.Constant) and isinstance(n.value.value, (int, float)) and not isinstance(n.value.value, bool):
+            return n.value.value
     return None
 
 
@@ -159,9 +193,20 @@ def call(ex, node, st):
     if not isinstance(target, FnRef):
         raise Unsupported(f"call of {type(target).__name__} at {ex.where(node)}")
     name = target.name
+    if name.startswith("repoclass:"):
+        from . import pymodel
+        path, cname = name[len("repoclass:"):].split("::")
+        return pymodel.instantiate(ex, st, path, cname, [ex.eval(a, st) for a in node.args])
     if name.startswith("repo:"):
         return repo_call(ex, st, name[5:], node)
     h = LIB.get(name)
+    if h is None and name.split(".")[0] in ("scipy", "math", "numpy") and not node.keywords:
+        # a pure library function that has no model: uninterpreted function of its (scalar) arguments.
+        # Sound (nothing is assumed about it) and keeps a changed source inside the verifier's subset.
+        args = [ex.eval(a, st) for a in node.args]
+        if args and all(not isinstance(a, (Arr, Tup, PList, Obj)) and a is not None for a in args):
+            ex.ctx.assumed.add(f"{name}: uninterpreted (no contract)")
+            return ex.fm.call(name.replace(".", "_"), *[ex.tofloat(a) for a in args])
     if h is None:
         if ex.ctx.options.get("slicing_mode"):
             ex.ctx.assumed.add(f"opaque:{name}")
@@ -193,7 +238,8 @@ def repo_call(ex, st, key, node):
     from .spec import REGISTRY
     variant = ex.c.call_variant.get(key, ex.c.call_variant.get(key.split("::")[-1], None))
     c = None
-    for v in ([variant] if variant else []) + [ex.c.variant, ex.c.variant.split("_")[0], ex.c.variant[:3], "default"]:
+    own = ex.c.call_variant.get("__self__", ex.c.variant)
+    for v in ([variant] if variant else []) + [own, own.split("_")[0], own[:3], "default"]:
         if (key, v) in REGISTRY:
             c = REGISTRY[(key, v)]
             break
@@ -467,6 +513,9 @@ def L_max(ex, st, node, *a):
 
 
 def L_int(ex, st, node, a):
+    from . import pymodel
+    if isinstance(a, pymodel.FmtStr):
+        return a.to_int(ex)
     if is_concrete(a):
         return int(a)
     if ex.isfloat(a):
@@ -490,7 +539,46 @@ def L_pow(ex, st, node, a, b):
 
 
 def L_isinstance(ex, st, node, a, b):
-    raise Unsupported("isinstance outside the Dekad model")
+    from . import pymodel
+    return pymodel.py_isinstance(ex, a, b)
+
+
+def L_hash(ex, st, node, a):
+    from . import pymodel
+    if isinstance(a, pymodel.Instance):
+        return pymodel.call_method(ex, st, a, "__hash__", [])
+    f = ex.ctx.valfn.setdefault(("hash",), z3.Function("py!hash", z3.IntSort(), z3.IntSort()))
+    return f(zint(a))
+
+
+def L_slice(ex, st, node, lo, hi=None, *r):
+    from . import xmodel
+    if hi is None:
+        lo, hi = 0, lo
+    return xmodel.SliceV(lo, hi)
+
+
+def L_str(ex, st, node, a):
+    from . import pymodel, xmodel
+    if isinstance(a, xmodel.Label):
+        return xmodel.StrOf(a)
+    if isinstance(a, pymodel.Instance):
+        return pymodel.call_method(ex, st, a, "__str__", [])
+    if isinstance(a, pymodel.FmtStr):
+        return a
+    raise Unsupported("str() of a non-model value")
+
+
+def L_datetime(kind):
+    def h(ex, st, node, *a, **kw):
+        from . import pymodel
+        return pymodel.make_datetime(ex, st, node, *a, kind=kind)
+    return h
+
+
+def L_timedelta(ex, st, node, *a, **kw):
+    from . import pymodel
+    return pymodel.make_timedelta(ex, st, node, *a, **kw)
 
 
 def L_zeros(ex, st, node, shape=None, dtype=None, **kw):
@@ -758,13 +846,16 @@ def L_identity(ex, st, node, a, *r, **kw):
 
 
 LIB = {
+    "builtins.slice": L_slice, "builtins.isinstance": L_isinstance, "builtins.hash": L_hash, "builtins.str": L_str,
+    "datetime.datetime": L_datetime("datetime"), "datetime.date": L_datetime("date"), "datetime.timedelta": L_timedelta,
     "numpy.datetime64": L_identity, "numpy.minimum": L_minmax("min"), "numpy.maximum": L_minmax("max"),
     "builtins.range": L_range, "numba.prange": L_prange, "builtins.len": L_len, "builtins.abs": L_abs, "builtins.min": L_min,
     "builtins.max": L_max, "builtins.int": L_int, "builtins.float": L_float, "builtins.round": L_round, "builtins.pow": L_pow,
     "numpy.zeros": L_zeros, "numpy.ones": L_ones, "numpy.full": L_full, "numpy.full_like": L_full_like,
     "numpy.zeros_like": L_zeros_like, "numpy.sum": L_np_sum, "numpy.abs": L_np_abs, "numpy.round": L_np_round,
     "numpy.isnan": L_isnan, "numpy.isinf": L_isinf, "numpy.array": L_np_array, "numpy.where": L_np_where,
-    "numpy.arange": L_arange, "numpy.median": L_median("median"), "numpy.nanmedian": L_median("nanmedian"), "numpy.unique": L_unique,
+    "numpy.arange": L_arange, "numpy.max": L_median("max"), "numpy.min": L_median("min"), "numpy.amax": L_median("max"), "numpy.amin": L_median("min"),
+    "numpy.median": L_median("median"), "numpy.nanmedian": L_median("nanmedian"), "numpy.unique": L_unique,
     "numpy.log10": ufun1("log10"), "numpy.sqrt": L_sqrt, "math.sqrt": L_sqrt, "math.log": ufun1("log"), "math.erf": ufun1("erf"),
     "numpy.cos": ufun1("cos"), "scipy.special.digamma": ufun1("digamma"), "scipy.special.ndtri": ufun1("ndtri"),
     "scipy.special.gammainc": ufun2("gammainc"),
